@@ -474,6 +474,49 @@ impl Scenario for Sched {
             };
             label = format!("{label}{f},");
         }
+        if case % 6 == 5 && st.order.len() >= 2 {
+            // Two validators reporting at ONE position: a packet whose memory size exceeds its
+            // offset-to-next (extra words with an unknown ID; the reader reads them as payload, the position
+            // counter advances by the smaller offset-to-next), directly followed by a packet of ANOTHER link
+            // with an RDH error: the extra word and that RDH are reported at the same position by two
+            // threads. In half of the cases the pair is the last of the stream (nothing reported behind it).
+            let pairs: Vec<usize> = (0..st.order.len() - 1).filter(|&i| st.order[i].0 != st.order[i + 1].0).collect();
+            if !pairs.is_empty() {
+                let n_over = rng.range(1, 3);
+                for _ in 0..n_over {
+                    let i = if rng.chance(1, 2) { *pairs.last().unwrap() } else { pairs[rng.usize_below(pairs.len())] };
+                    let (xl, xp) = st.order[i];
+                    let (yl, yp) = st.order[i + 1];
+                    let x = &mut st.links[xl].packets[xp];
+                    if x.rdh.memory_size != x.rdh.offset_next {
+                        continue;
+                    }
+                    let extra = rng.range(1, 4) as usize;
+                    let slot = if x.rdh.data_format == 0 { 16 } else { 10 };
+                    if x.rdh.memory_size as usize + extra * slot + x.padding > 10_000 {
+                        continue;
+                    }
+                    // (trailing 0xFF padding of data format 2 would separate the words from the end)
+                    x.padding = 0;
+                    let keep_off = 64 + x.payload().len() as u16;
+                    for _ in 0..extra {
+                        let mut w = [0u8; 10];
+                        rng.fill(&mut w);
+                        w[9] = *rng.pick(&[0x00u8, 0x9A, 0xF3, 0x10]);
+                        x.words.push(itsgen::gen::WordInfo { kind: itsgen::words::Kind::Unknown, word: w });
+                    }
+                    x.rdh.offset_next = keep_off;
+                    x.rdh.memory_size = 64 + x.payload().len() as u16;
+                    let y = &mut st.links[yl].packets[yp];
+                    match rng.below(3) {
+                        0 => y.rdh.bc = 0xdec,
+                        1 => y.rdh.rdh0_reserved = 1,
+                        _ => y.rdh.pages_counter = y.rdh.pages_counter.wrapping_add(3),
+                    }
+                }
+                label = format!("{label}overlap,");
+            }
+        }
         let mut input = st.bytes();
         if case % 10 == 9 {
             // the repository's sample files (12 links x 2 HBFs of detector data among them)
